@@ -2,6 +2,8 @@ import SgVerif.C39.Lemmas
 import SgVerif.C39.Commute
 import SgVerif.C39.SemGroups
 import SgVerif.C39.Assembly
+import SgVerif.C39.WorldLts
+import SgVerif.C38.Props
 /-
 C39 — Declared-independent transitions commute; the dependency relation is symmetric.
 Property theorems only.  `depends`, `lut`, `evalAction` come from the GENERATED module Gen.lean (the table is what the
@@ -349,5 +351,54 @@ example :       -- CONDVAR_ASYNC_LOCK (releases mutex 0 to the queue) × CONDVAR
     (Full.exec (Full.exec w t1) t2).sync.mutex 0 = ⟨some 4, [2]⟩ ∧ (Full.exec (Full.exec w t2) t1).sync.mutex 0 = ⟨some 4, [2]⟩ := by decide
 example :       -- footprints: a semaphore transition and a mailbox transition never meet
     tagDisj .SEM_UNLOCK .COMM_ASYNC_RECV = true ∧ tagDisj .MUTEX_UNLOCK .MUTEX_ASYNC_LOCK = false := by decide
+
+
+/-! ## Link to C38: the commutation hypothesis `LTS.Commutes` on the World -/
+
+/-- **C38's hypothesis `LTS.Commutes` discharged on the World** for the relation `crossDep` (independent = different
+actors, no ACTOR_JOIN / ACTOR_CREATE, kinds with tag-disjoint footprints: all cross-group cells and the read-only pairs of a
+group): symmetric, "neither enables nor disables" with the labels included, equal states — in every state. -/
+theorem world_commutes_cross : McRef.LTS.Commutes worldLTS crossDep := Full.world_commutes_cross
+
+/-- hence (C38 `equiv_traces_same_outcome`): two executions of the World that differ by swaps of adjacent cross-group
+transitions reach the same state (or are both refused), from every state -/
+theorem world_equiv_traces_same_state {u v : List Base} (h : McRef.TraceEq crossDep u v) (w : World) :
+    worldLTS.run w u = worldLTS.run w v :=
+  C38.equiv_traces_same_outcome worldLTS crossDep Full.world_commutes_cross h w
+
+/-- for the WHOLE table (minus `calPair`), the "commute" and "do not disable" parts of `LTS.Commutes`, with EQUAL states.
+Missing for `Commutes worldLTS (table)`: "does not enable" inside the families; it is FALSE for the cells
+RANDOM × ACTOR_JOIN and ACTOR_CREATE × ACTOR_JOIN when the join targets the issuer (`random_join_enables_counterexample`). -/
+theorem world_indep_comm (w : World) (t1 t2 : Base) (hinv : w.inv) (ha : t1.aid ≠ t2.aid)
+    (f1 : worldLTS.enabled w t1 = true) (f2 : worldLTS.enabled w t2 = true)
+    (hd : depends (.base t1) (.base t2) = some false) (hx : calPair t1 t2 = false) :
+    worldLTS.enabled (worldLTS.exec w t1) t2 = true ∧ worldLTS.enabled (worldLTS.exec w t2) t1 = true ∧
+    worldLTS.exec (worldLTS.exec w t1) t2 = worldLTS.exec (worldLTS.exec w t2) t1 :=
+  Full.world_indep_comm w t1 t2 hinv ha f1 f2 hd hx
+
+/-- **"does not enable" fails for RANDOM × ACTOR_JOIN** (model level; the strengthening C38 needs, not part of the C39
+statement, which is about co-enabled transitions).  Actor 1 is about to do its LAST transition, a RANDOM; actor 2 waits to
+join it.  The table says independent (`rule_all(RANDOM, ALWAYS_INDEP)` overwrites the cell, like it did for RANDOM ×
+ACTOR_CREATE), the join is not fireable before the RANDOM and fireable after it.  Same for ACTOR_CREATE as last transition
+(cell EVAL_T2_ACTOR_CREATE only looks at the created child). -/
+theorem random_join_enables_counterexample :
+    let w : World := { w0 with left := fun a => if a = 1 then 1 else 5 }
+    let t1 : Base := { kind := .RANDOM, aid := 1, min := 0, max := 1 }
+    let c1 : Base := { kind := .ACTOR_CREATE, aid := 1, child := 5 }
+    let t2 : Base := { kind := .ACTOR_JOIN, aid := 2, target := 1 }
+    depends (.base t1) (.base t2) = some false ∧ depends (.base c1) (.base t2) = some false ∧
+    fireable w t1 = true ∧ fireable w c1 = true ∧ fireable w t2 = false ∧
+    fireable (Full.exec w t1) t2 = true ∧ fireable (Full.exec w c1) t2 = true := by decide
+
+-- non-vacuity of `world_commutes_cross` / `world_equiv_traces_same_state`: a lock and a send swapped around a test
+example :
+    let a : Base := { kind := .MUTEX_ASYNC_LOCK, aid := 1, mutex := 0 }
+    let b : Base := { kind := .COMM_ASYNC_SEND, aid := 2, mbox := 0, comm := 0 }
+    crossDep a b = false ∧ worldLTS.enabled w0 a = true ∧ worldLTS.enabled w0 b = true ∧
+    (worldLTS.run w0 [a, b]).isSome = true := by decide
+example : McRef.TraceEq crossDep
+    [{ kind := .MUTEX_ASYNC_LOCK, aid := 1, mutex := 0 }, { kind := .COMM_ASYNC_SEND, aid := 2, mbox := 0, comm := 0 }]
+    [{ kind := .COMM_ASYNC_SEND, aid := 2, mbox := 0, comm := 0 }, { kind := .MUTEX_ASYNC_LOCK, aid := 1, mutex := 0 }] :=
+  .swap _ _ [] (by decide)
 
 end SgVerif.C39
